@@ -403,12 +403,20 @@ static int vi_prefix(void)
 	int c = vi_read();
 	if ((c >= '1' && c <= '9')) {
 		while (isdigit(c)) {
-			n = n * 10 + c - '0';
+			if (n < 100000000)	/* further digits would overflow */
+				n = n * 10 + c - '0';
 			c = vi_read();
 		}
 	}
 	vi_back(c);
 	return n;
+}
+
+/* the product of the two counts of a command, saturated */
+static int vi_cnt(void)
+{
+	long long cnt = (long long) (vi_arg1 ? vi_arg1 : 1) * (vi_arg2 ? vi_arg2 : 1);
+	return cnt < 999999999 ? cnt : 999999999;
 }
 
 static int vi_col2off(struct lbuf *lb, int row, int col)
@@ -516,7 +524,7 @@ static int vi_search(int cmd, int cnt, int *row, int *off)
 /* read a line motion */
 static int vi_motionln(int *row, int cmd)
 {
-	int cnt = (vi_arg1 ? vi_arg1 : 1) * (vi_arg2 ? vi_arg2 : 1);
+	int cnt = vi_cnt();
 	int c = vi_read();
 	int mark, mark_row, mark_off;
 	switch (c) {
@@ -600,7 +608,7 @@ static int vi_curword(struct lbuf *lb, char *dst, int len, int row, int off, cha
 static int vi_motion(int *row, int *off)
 {
 	char cw[120], kw[128];
-	int cnt = (vi_arg1 ? vi_arg1 : 1) * (vi_arg2 ? vi_arg2 : 1);
+	int cnt = vi_cnt();
 	char *ln = lbuf_get(xb, *row);
 	int dir = dir_context(ln ? ln : "");
 	int mark, mark_row, mark_off;
@@ -1554,13 +1562,13 @@ static void vi(void)
 			lbuf_mark(xb, '^', xrow, xoff);
 			switch (c) {
 			case TK_CTL('b'):
-				if (vi_scrollbackward(MAX(1, vi_arg1) * (xrows - 1)))
+				if (vi_scrollbackward(MIN(MAX(1, vi_arg1), lbuf_len(xb)) * (xrows - 1)))
 					break;
 				xoff = lbuf_indents(xb, xrow);
 				mod = VC_COL;
 				break;
 			case TK_CTL('f'):
-				if (vi_scrollforward(MAX(1, vi_arg1) * (xrows - 1)))
+				if (vi_scrollforward(MIN(MAX(1, vi_arg1), lbuf_len(xb)) * (xrows - 1)))
 					break;
 				xoff = lbuf_indents(xb, xrow);
 				mod = VC_COL;
